@@ -50,6 +50,9 @@ type line struct {
 	Auto   bool  `json:"auto"`
 	Lib    bool  `json:"lib"`
 	Std    bool  `json:"std"`
+	NHex   string `json:"n_hex"`
+	SigHex string `json:"sig_hex"`
+	MsgHex string `json:"msg_hex"`
 	Note   string `json:"note"`
 }
 
@@ -322,7 +325,8 @@ func main() {
 				obsSalt := db[len(db)-obsLen:]
 				hp := sha512.Sum384(append(append(make([]byte, 8), mh[:]...), obsSalt...))
 				l := line{Ev: "pss", Variant: fmt.Sprintf("sLen=%d", sLen), Bits: bits, Site: fault, Em: ints(em), EmBits: emBits, HLen: hLen, SLen: sLen, Auto: sLen == 0,
-					MHash: ints(mh[:]), DbMask: ints(mask), Salt: ints(obsSalt), HPrime: ints(hp[:])}
+					MHash: ints(mh[:]), DbMask: ints(mask), Salt: ints(obsSalt), HPrime: ints(hp[:]),
+					NHex: key.N.Text(16), SigHex: vlib.Hex(sig), MsgHex: vlib.Hex(msg)}
 				if safe(func() { l.Lib = ver.Verify(msg, sig) == nil }) {
 					l.Panics++
 				}
